@@ -248,8 +248,111 @@ func cfgStatusStmts(n map[string]any) string {
 	return s
 }
 
+// the substatements of a node other than its children, one string each
+func nodeItems(n map[string]any) []string {
+	var items []string
+	cfg := func() {
+		if v, ok := n["config"].(bool); ok {
+			items = append(items, fmt.Sprintf("config %v;", v))
+		}
+		if v, ok := n["status"].(string); ok {
+			items = append(items, "status "+v+";")
+		}
+		for _, f := range carr(n, "iff") {
+			items = append(items, "if-feature "+f.(string)+";")
+		}
+	}
+	minmax := func() {
+		if _, ok := n["min"]; ok {
+			items = append(items, fmt.Sprintf("min-elements %d;", cint(n, "min")))
+		}
+		if _, ok := n["max"]; ok {
+			items = append(items, fmt.Sprintf("max-elements %d;", cint(n, "max")))
+		}
+		if o := cstr(n, "ordby"); o != "" {
+			items = append(items, "ordered-by "+o+";")
+		}
+	}
+	mand := func() {
+		if cbool(n, "mandatory") {
+			items = append(items, "mandatory true;")
+		} else if cbool(n, "_mandFalse") {
+			items = append(items, "mandatory false;")
+		}
+	}
+	switch cstr(n, "k") {
+	case "container":
+		cfg()
+		if cbool(n, "presence") {
+			items = append(items, "presence \"p\";")
+		}
+	case "list":
+		cfg()
+		var ks []string
+		for _, k := range carr(n, "keys") {
+			ks = append(ks, k.(string))
+		}
+		items = append(items, "key "+yq(strings.Join(ks, " "))+";")
+		minmax()
+		for _, u := range carr(n, "uniques") {
+			var ps []string
+			for _, p := range u.([]any) {
+				ps = append(ps, p.(string))
+			}
+			items = append(items, "unique "+yq(strings.Join(ps, " "))+";")
+		}
+	case "leaf":
+		items = append(items, strings.TrimSpace(renderType(cmap(n, "type"))))
+		cfg()
+		mand()
+		if d, ok := n["dflt"].(string); ok {
+			items = append(items, "default "+yq(d)+";")
+		}
+	case "leaf-list":
+		items = append(items, strings.TrimSpace(renderType(cmap(n, "type"))))
+		cfg()
+		minmax()
+	case "choice":
+		cfg()
+		mand()
+		if d, ok := n["dflt"].(string); ok {
+			items = append(items, "default "+d+";")
+		}
+	case "case":
+		cfg()
+	}
+	return items
+}
+
+// the same node with its substatements written in another order (each on its own line, rotated by _rot)
+func renderNodeRot(b *strings.Builder, n map[string]any, ind string, rot int) {
+	items := nodeItems(n)
+	if len(items) > 0 {
+		k := rot % len(items)
+		items = append(append([]string{}, items[k:]...), items[:k]...)
+	}
+	kind := cstr(n, "k")
+	if kind == "leaf" || kind == "leaf-list" {
+		b.WriteString(ind + kind + " " + cstr(n, "n") + " { " + strings.Join(items, " ") + " }\n")
+		return
+	}
+	b.WriteString(ind + kind + " " + cstr(n, "n") + " {\n")
+	for _, it := range items {
+		b.WriteString(ind + "  " + it + "\n")
+	}
+	for _, k := range carr(n, "kids") {
+		renderNode(b, k.(map[string]any), ind+"  ")
+	}
+	b.WriteString(ind + "}\n")
+}
+
 func renderNode(b *strings.Builder, n map[string]any, ind string) {
 	if cbool(n, "removed") {
+		return
+	}
+	if rot, ok := n["_rot"]; ok {
+		_ = rot
+		renderNodeRot(b, n, ind, cint(n, "_rot"))
 		return
 	}
 	kind := cstr(n, "k")
